@@ -7,16 +7,10 @@ CONSTANTS
   ImgLists <- Lists3x2
   PubPaths = {1, 2}
   MaxRuns = 2
-  Modes = {"image", "sign", "auth"}
+  Modes = {"auth"}
   Iters = {1, 2}
   OutPaths = {0, 1, 2}
-  MaxSteps = 3
-  Variant = "ok"
-INVARIANT HashInputOk
-INVARIANT SinglePub
-INVARIANT SigVerifies
-INVARIANT PrivNotWritten
-INVARIANT KeyFreshPerRun
+  MaxSteps = 2
+  Variant = "stale"
 INVARIANT AuthBinds
-INVARIANT AuthFiles
 CHECK_DEADLOCK FALSE
